@@ -39,7 +39,7 @@ def save(d, r): json.dump(r, open(os.path.join(d, 'result.json'), 'w'), indent=1
 
 
 def confirm(d):
-    wt = worktree('confirm'); tgt = os.path.join(SCR, 'confirm', 'target')
+    kind = os.environ.get('MUT_KIND', 'confirm'); wt = worktree(kind); tgt = os.path.join(SCR, kind, 'target')
     env = dict(os.environ, CARGO_TARGET_DIR=tgt, CARGO_NET_OFFLINE='true')
     r = load(d); c = {}
     patch = os.path.abspath(os.path.join(d, 'patch.diff')); demo = os.path.join(d, 'demo.rs')
